@@ -147,7 +147,122 @@ theorem leafCount_specD (merge : α → α → α) (leaves : List α) :
     refine ⟨this.1, ?_⟩
     rw [this.2, heights_pushD, leafCount_inc hd]; omega
 
-/-! ### pushing a list of leaves -/
+/-! ### `leaf_index_to_pos` -/
+
+theorem tzAux_fuel : ∀ (f f' n : Nat), n ≤ f → n ≤ f' → trailingZerosAux f n = trailingZerosAux f' n := by
+  intro f
+  induction f with
+  | zero =>
+    intro f' n h1 _
+    have : n = 0 := by omega
+    subst this
+    cases f' <;> simp [trailingZerosAux]
+  | succ f ih =>
+    intro f' n h1 h2
+    cases f' with
+    | zero =>
+      have : n = 0 := by omega
+      subst this
+      simp [trailingZerosAux]
+    | succ f' =>
+      simp only [trailingZerosAux]
+      split
+      · rfl
+      · split
+        · rfl
+        · rw [ih f' (n / 2) (by omega) (by omega)]
+
+theorem tz_unfold (n : Nat) (hn : n ≠ 0) :
+    trailingZeros n = if n % 2 = 1 then 0 else 1 + trailingZeros (n / 2) := by
+  unfold trailingZeros
+  obtain ⟨k, rfl⟩ : ∃ k, n = k + 1 := ⟨n - 1, by omega⟩
+  simp only [trailingZerosAux]
+  rw [tzAux_fuel k ((k + 1) / 2) ((k + 1) / 2) (by omega) (by omega)]
+  simp
+
+theorem tz_two_pow (h : Nat) : trailingZeros (2 ^ h) = h := by
+  induction h with
+  | zero => rfl
+  | succ h ih =>
+    have p0 := Nat.two_pow_pos h
+    have p1 := two_pow_succ h
+    rw [tz_unfold _ (by omega)]
+    have e1 : ¬ (2 ^ (h + 1) % 2 = 1) := by omega
+    have e2 : 2 ^ (h + 1) / 2 = 2 ^ h := by omega
+    rw [if_neg e1, e2, ih]; omega
+
+theorem tz_add_pow (h m : Nat) (hm : m < 2 ^ h) (hpos : 0 < m) :
+    trailingZeros (2 ^ h + m) = trailingZeros m := by
+  induction h generalizing m with
+  | zero => simp at hm; omega
+  | succ h ih =>
+    have p0 := Nat.two_pow_pos h
+    have p1 := two_pow_succ h
+    rw [tz_unfold _ (by omega), tz_unfold m (by omega)]
+    have e1 : (2 ^ (h + 1) + m) % 2 = m % 2 := by omega
+    have e2 : (2 ^ (h + 1) + m) / 2 = 2 ^ h + m / 2 := by omega
+    rw [e1, e2]
+    by_cases hodd : m % 2 = 1
+    · simp [hodd]
+    · simp only [hodd, if_false]
+      rw [ih (m / 2) (by omega) (by omega)]
+
+/-- `[b-1, …, 0]` -/
+def fullList : Nat → List Nat
+  | 0 => []
+  | b + 1 => b :: fullList b
+
+theorem fullList_spec (b : Nat) : DescB b (fullList b) ∧ (fullList b).length = b := by
+  induction b with
+  | zero => exact ⟨trivial, rfl⟩
+  | succ b ih => exact ⟨⟨by omega, ih.1⟩, by simp [fullList, ih.2]⟩
+
+theorem popcount_all_ones (x : Nat) : popcount (2 ^ x - 1) = x := by
+  obtain ⟨hd, hl⟩ := fullList_spec x
+  have h1 := leafCount_full hd hl
+  have h2 := popcount_leafCount hd
+  have : leafCount (fullList x) = 2 ^ x - 1 := by omega
+  rw [this, hl] at h2
+  exact h2
+
+/-- `trailing_zeros(leaves + 1)` is the number of merges of the next push -/
+theorem tz_leafCount {b : Nat} {hs : List Nat} (h : DescB b hs) :
+    trailingZeros (leafCount hs + 1) = run hs := by
+  induction hs generalizing b with
+  | nil => rfl
+  | cons x r ih =>
+    have hlt := leafCount_lt h.2
+    by_cases hf : x = r.length
+    · have := leafCount_full (b := x + 1) (hs := x :: r) ⟨by omega, h.2⟩ (by simp; omega)
+      rw [this, tz_two_pow]
+      simp [run, hf]
+    · simp only [run, hf, if_false, leafCount]
+      have hne : leafCount r + 1 ≠ 2 ^ x := by
+        intro he
+        have h2 := popcount_leafCount h.2
+        have : leafCount r = 2 ^ x - 1 := by omega
+        rw [this, popcount_all_ones] at h2
+        exact hf h2
+      have e : 2 ^ x + leafCount r + 1 = 2 ^ x + (leafCount r + 1) := by omega
+      rw [e, tz_add_pow x _ (by omega) (by omega)]
+      exact ih h.2
+
+/-- **`leaf_index_to_pos`**: the leaf with index `leafCount hs` (the next one) goes to position
+`szH hs`, the current `mmr_size`. -/
+theorem leafIndexToPos_spec {b : Nat} {hs : List Nat} (h : DescB b hs) :
+    leafIndexToPos (leafCount hs) = szH hs := by
+  have hd' : DescB (max b (hs.length + 1)) (inc hs) := DescB_inc (DescB_mono h (by omega)) (by omega)
+  have hne : inc hs ≠ [] := by
+    cases hs with
+    | nil => simp [inc]
+    | cons x r => simp only [inc]; split <;> simp
+  have h1 := leafIndexToMmrSize_spec hd' hne
+  rw [leafCount_inc h] at h1
+  simp only [Nat.add_sub_cancel] at h1
+  unfold leafIndexToPos
+  rw [h1, tz_leafCount h, szH_inc h]
+  omega
+
 
 theorem pushAll_append (merge : α → α → α) (m : MMR α) (a b : List α) :
     pushAll merge m (a ++ b) =
